@@ -173,22 +173,12 @@ func constraintLine(src []byte) string {
 }
 
 // intendedConstraint returns the //go:build line a generated file is meant to
-// have: "!wireinject", and-ed to the constraint of the header if it has one.
+// have. A header cannot add to it: a constraint of its own, in either spelling
+// ("//go:build x" is not merged with the generated one, "// +build x" is),
+// would leave the package without its injectors under the default tags.
 func intendedConstraint(header []byte) string {
 	notInject := &constraint.NotExpr{X: &constraint.TagExpr{Tag: "wireinject"}}
-	fmtSrc, err := format.Source(append(append([]byte(nil), header...), "\npackage p\n"...))
-	if err != nil {
-		return ""
-	}
-	line := constraintLine(fmtSrc)
-	if line == "" {
-		return "//go:build " + notInject.String()
-	}
-	own, err := constraint.Parse(line)
-	if err != nil {
-		return ""
-	}
-	return "//go:build " + (&constraint.AndExpr{X: own, Y: notInject}).String()
+	return "//go:build " + notInject.String()
 }
 
 func detectOutputDir(paths []string) (string, error) {
